@@ -307,7 +307,8 @@ func handleHRANDFIELD(params internal.HandlerFuncParams) ([]byte, error) {
 	}
 
 	// A count of 0 selects nothing, but only after the modifier and the type of the key have been checked.
-	if count == 0 {
+	// An empty hash has no field to pick either (picking from it with a negative count used to panic).
+	if count == 0 || len(hash) == 0 {
 		return []byte("*0\r\n"), nil
 	}
 
